@@ -28,7 +28,7 @@ import ufl
 from ufl.algorithms.expand_indices import expand_indices
 from ufl.algorithms.remove_component_tensors import remove_component_tensors
 from ufl.algorithms.renumbering import IndexRelabeller, renumber_indices
-from ufl.classes import (ComponentTensor, FixedIndex, Index, Indexed, IndexSum, ListTensor,
+from ufl.classes import (ComponentTensor, FixedIndex, Index, Indexed, IndexSum, IntValue, ListTensor,
                          MultiIndex, Product, Zero)
 from ufl.corealg.map_dag import map_expr_dag
 
@@ -40,11 +40,13 @@ import uflgen
 import vlib
 
 HAND_FILES = ["Props/C10_model.v", "Props/C10_lemmas.v", "Props/C10_thm.v", "Props/C10_inj.v",
-              "Props/C10_expand.v", "Props/C10_refuted.v"]
+              "Props/C10_expand.v", "Props/C10_refuted.v", "Props/C10_wf.v"]
 
-REQUIRE = "Require Import UFLV.Props.C10_model UFLV.Props.C10_expand.\n"
+REQUIRE = "Require Import UFLV.Props.C10_model UFLV.Props.C10_expand UFLV.Props.C10_wf.\n"
 EXTRA_HEADER = r'''
 Definition oden s rho (o : option expr) c : KT := match o with Some e => DEN s rho e c | None => z0 end.
+(* UFL's Conditional constructor returns the branch when both branches are equal: the algebra law it uses *)
+Hypothesis cond_same : forall b x, cond_ b x x = x.
 (* make the arguments of equal uninterpreted symbols (cmp, cond, min, max, pow, atan2) equal *)
 Ltac arg_eq2 := first [ reflexivity | ring | field; nz_solve char0 ].
 Ltac unify2 :=
@@ -80,12 +82,13 @@ Ltac unify2 :=
           replace (pow X1 Y1) with (pow X2 Y2) by (f_equal; arg_eq2)
       end
   end.
-Ltac close2 := norm_goal; first [ reflexivity | ring | field; nz_solve char0
-                 | repeat first [ unify1 | unify2 ]; first [ reflexivity | ring | field; nz_solve char0 ] ].
+Ltac close2 := norm_goal; rewrite ?cond_same; first [ reflexivity | ring | field; nz_solve char0
+                 | repeat first [ unify1 | unify2 ]; rewrite ?cond_same;
+                   first [ reflexivity | ring | field; nz_solve char0 ] ].
 Ltac t3v := intros; repeat split; close2.
 '''
 
-TIERS = {"quick": dict(n=90, depth=3), "thorough": dict(n=600, depth=4)}
+TIERS = {"quick": dict(n=75, depth=3), "thorough": dict(n=600, depth=4)}
 MAIN_THEOREMS = ["C10_thm.den_ext_on", "C10_thm.C10_irep_den", "C10_thm.C10_remove_partial",
                  "C10_thm.C10_renumber", "C10_inj.C10_renumber_injective", "C10_expand.C10_expand_partial",
                  "C10_refuted.C10_remove_refuted", "C10_refuted.C10_remove_zero_refuted",
@@ -183,16 +186,35 @@ def vals_text(case, fin, fout, lhs, rhs):
     return " /\\ ".join(parts + ["True"])
 
 
-def t3_lemma(case, model_term, fout):
+def wf_example(case):
+    nm = case.name
+    return (f"Example {nm}_wf : implb (wfdims {nm}_in) (wfdims {nm}_out) = true. "
+            f"Proof. vm_compute. reflexivity. Qed.\n", f"{nm}_wf")
+
+
+def t3_lemma(case, model_term, fout, allow_none=False):
     """model(in) = Some out structurally, or (value level) both have the same value everywhere"""
     nm = case.name
     body = vals_text(case, C10_lib.free_of(case.inp), fout,
                      lambda F, v, c: f"oden s (upds rho {F} {v}) ({model_term}) {c}",
                      lambda F, v, c: f"DEN s (upds rho {F} {v}) {nm}_out {c}")
+    extra = f" \\/ {model_term} = None" if allow_none else ""
+    last = " | right; right; vm_compute; reflexivity" if allow_none else ""
+    mid = "right; left" if allow_none else "right"
     return (f"Lemma {nm}_t3 : {model_term} = Some {nm}_out \\/ "
-            f"({model_term} <> None /\\ forall s rho, {body}).\n"
+            f"({model_term} <> None /\\ forall s rho, {body}){extra}.\n"
             f"Proof. first [ left; vm_compute; reflexivity "
-            f"| idtac \"T3V {nm}\"; right; split; [vm_compute; discriminate|t3v] ]. Qed.\n")
+            f"| idtac \"T3V {nm}\"; {mid}; split; [vm_compute; discriminate|t3v]{last} ]. Qed.\n")
+
+
+FIXED = set()     # known findings listed in known/C10.json that no longer reproduce (a fix was applied)
+
+
+def add_wf(case, txt, names):
+    if case.out is not None:
+        t, n = wf_example(case)
+        txt.append(t)
+        names.append(n)
 
 
 def extra_rct(known_instance, crash):
@@ -217,7 +239,11 @@ def extra_rct(known_instance, crash):
             # the side condition of C10_remove_partial holds: the theorem applies to this input
             txt.append(f"Example {nm}_safe : rct_safe {nm}_in = true. Proof. vm_compute. reflexivity. Qed.\n")
             names.append(f"{nm}_safe")
-        txt.append(t3_lemma(case, f"rct {nm}_in", C10_lib.free_of(case.inp)))
+        add_wf(case, txt, names)
+        if "indexreplacer-capture" in FIXED and not case.note.get("hygienic"):
+            return "".join(txt), names       # the model reproduces the (fixed) capture: no T3 on this class
+        txt.append(t3_lemma(case, f"rct {nm}_in", C10_lib.free_of(case.inp),
+                            allow_none="indexreplacer-zero-fixed" in FIXED))
         names.append(f"{nm}_t3")
         return "".join(txt), names
     return f
@@ -233,7 +259,9 @@ def extra_ren(rename):
                f"Example {nm}_rk : rk {nm}_in {rank} = true. Proof. vm_compute. reflexivity. Qed.\n",
                f"Example {nm}_safe : safe {nm}_m {nm}_in = true. Proof. vm_compute. reflexivity. Qed.\n",
                t3_lemma(case, f"irep {nm}_m {nm}_in", fout)]
-        return "".join(txt), [f"{nm}_rk", f"{nm}_safe", f"{nm}_t3"]
+        names = [f"{nm}_rk", f"{nm}_safe", f"{nm}_t3"]
+        add_wf(case, txt, names)
+        return "".join(txt), names
     return f
 
 
@@ -251,13 +279,72 @@ def extra_exp(known_instance, tensor_var=False):
             txt.append(f"Example {nm}_ok : rk {nm}_in 0 = true /\\ var_ctx_clash {nm}_in = false. "
                        f"Proof. split; vm_compute; reflexivity. Qed.\n")
             names.append(f"{nm}_ok")
+        add_wf(case, txt, names)
+        if "expand-variable-cache" in FIXED and tensor_var:
+            return "".join(txt), names       # the model reproduces the (fixed) cache re-use: no T3 on this class
         txt.append(t3_lemma(case, f"expand_indices {nm}_in", ()))
         names.append(f"{nm}_t3")
         return "".join(txt), names
     return f
 
 
-MAX_LEMMAS = 16
+def enumerated_cases():
+    """Small deterministic families for the corner structures the property names, so that every run
+    (whatever the seed) contains them: zeros with several free indices of different extents kept
+    alive by conditionals / list tensors, with both creation orders of the indices and an earlier
+    visited sub-expression that uses the later index first; one body in several tensor scopes;
+    an index re-bound inside its own scope before a later read."""
+    from ufl.classes import Conditional, LT, Sum
+    out = []
+    A23, A32 = uflgen.coef((2, 3)), uflgen.coef((3, 2))
+    B2, B3, x = uflgen.coef((2,)), uflgen.coef((3,)), uflgen.coef(())
+    S = lambda body, k: IndexSum(body, MultiIndex((k,)))          # noqa: E731
+    X = lambda a, *ix: Indexed(a, MultiIndex(tuple(FixedIndex(i) if isinstance(i, int) else i for i in ix)))  # noqa: E731
+    for order in (0, 1):
+        a, b = Index(), Index()
+        p, q = (a, b) if order == 0 else (b, a)            # p has extent 2, q extent 3
+        fi = sorted([(p.count(), 2), (q.count(), 3)])
+        Z = Zero((), tuple(i for i, _ in fi), tuple(d for _, d in fi))
+        for first in (p, q):                                # the index the condition meets first
+            vec = B2 if first is p else B3
+            cond = LT(S(Product(X(vec, first), X(vec, first)), first), x)
+            for zpos in (0, 1):
+                other = X(A23, p, q)
+                t, f = (Z, other) if zpos == 0 else (other, Z)
+                tag = f"o{order}{'p' if first is p else 'q'}{zpos}"
+                out.append((f"zc_{tag}", ComponentTensor(Conditional(cond, t, f), MultiIndex((p, q))), False))
+                lt = ListTensor(t, f)
+                out.append((f"zl_{tag}", ComponentTensor(
+                    Product(S(Product(X(vec, first), X(vec, first)), first), X(lt, zpos)), MultiIndex((q, p))), False))
+    # one body, several tensor scopes, equal outer multi-index
+    i, j, k, l = Index(), Index(), Index(), Index()
+    A22 = uflgen.coef((2, 2))
+    body = Product(X(A22, i, j), Sum(IntValue(2), X(A22, 0, 1)))
+    Sij = ComponentTensor(body, MultiIndex((i, j)))
+    Sji = ComponentTensor(body, MultiIndex((j, i)))
+    out.append(("sb_fixed", Sum(X(Sij, 0, 1), Product(IntValue(-1), X(Sji, 0, 1))), True))
+    out.append(("sb_fixed_rev", Sum(X(Sji, 0, 1), Product(IntValue(-1), X(Sij, 0, 1))), True))
+    out.append(("sb_free", S(S(Product(X(Sij, k, l), X(Sji, k, l)), l), k), True))
+    Ri, Qj = ComponentTensor(body, MultiIndex((i,))), ComponentTensor(body, MultiIndex((j,)))
+    out.append(("sb_partial", X(ComponentTensor(S(Product(X(Ri, k), X(Qj, k)), k), MultiIndex((j, i))), 0, 1), True))
+    # an index re-bound inside its own scope, inner scope met before a later read of the outer one
+    n2 = S(Product(X(B2, i), X(B2, i)), i)
+    C2 = uflgen.coef((2,))
+    br = Conditional(LT(n2, x), X(C2, i), Product(IntValue(2), X(B2, i)))
+    out.append(("sh_sum", S(Product(br, X(B2, i)), i), True))
+    out.append(("sh_ct0", X(ComponentTensor(br, MultiIndex((i,))), 0), True))
+    out.append(("sh_ct1", X(ComponentTensor(br, MultiIndex((i,))), 1), True))
+    out.append(("sh_ctj", S(Product(X(ComponentTensor(br, MultiIndex((i,))), j), X(B2, j)), j), True))
+    out.append(("sh_prod", X(ComponentTensor(Product(n2, X(C2, i)), MultiIndex((i,))), 1), True))
+    return out
+
+
+MAX_LEMMAS = 18
+# knob profiles cycled over the cases: default / zero- and list-rich (zeros with several free indices of
+# different extents survive in list tensors and conditional branches) / conditional- and scope-rich
+PROFILES = [None,
+            dict(zeros=0.45, lists=0.5, variables=0.1),
+            dict(reuse=0.9, nested=0.8, zeros=0.1, variables=0.1)]
 
 
 def build_cases(run, live):
@@ -272,15 +359,23 @@ def build_cases(run, live):
         rep.update(extra or {})
         run.violation(rep, True)
 
-    for n in range(cfg["n"]):
-        rng = random.Random(f"{run.seed}-C10-{n}")
-        hyg = n % 2 == 0
-        g = C10_gen.Gen(rng, hygienic=hyg)
-        closed = n % 3 == 0
-        try:
-            e = g.top(cfg["depth"], closed_scalar=closed)
-        except C10_gen.GenError:
-            continue
+    enum = enumerated_cases()
+    stats["enumerated"] = len(enum)
+    for n in range(-len(enum), cfg["n"]):
+        if n < 0:
+            ename, e, closed = enum[n + len(enum)]
+            closed = closed and e.ufl_shape == () and not e.ufl_free_indices
+        else:
+            ename = None
+            rng = random.Random(f"{run.seed}-C10-{n}")
+            hyg = n % 2 == 0
+            profile = PROFILES[(n // 2) % len(PROFILES)]
+            g = C10_gen.Gen(rng, hygienic=hyg, knobs=profile)
+            closed = n % 3 == 0
+            try:
+                e = g.top(cfg["depth"], closed_scalar=closed)
+            except C10_gen.GenError:
+                continue
         stats["generated"] += 1
         is_h = C10_gen.hygienic(e)
         stats["hygienic"] += is_h
@@ -288,6 +383,9 @@ def build_cases(run, live):
         for x in ufl.corealg.traversal.unique_pre_traversal(e):
             kinds[type(x).__name__] = kinds.get(type(x).__name__, 0) + 1
         base = {"seed": run.seed, "n": n, "hygienic": bool(is_h), "input": str(e)[:300]}
+        if ename:
+            base["family"] = ename
+        n = n if n >= 0 else f"e{n + len(enum)}"
         nval = 1
         for d in e.ufl_index_dimensions + e.ufl_shape:
             nval *= d
@@ -401,6 +499,10 @@ def reclassify(run, failing, live):
 def main(run):
     known = vlib.load_known_findings("C10")
     live = replay_known(run, known)
+    FIXED.clear()
+    FIXED.update(k.get("id") for k in known if k.get("id") in KNOWN and k.get("id") not in live)
+    if FIXED:
+        run.extra["known_findings_fixed_in_tree"] = sorted(FIXED)
     cases, stats = build_cases(run, live)
     run.extra["input_distribution"] = stats
     for c in cases[:6]:
@@ -457,4 +559,5 @@ def main(run):
              "indices and component; T3: model(in) = out structurally or by value for all operand values; "
              "distinct = distinct (case, input)",
         assumptions=["valuations range over the declared dimensions of the free indices",
+                     "kcond b x x = x (the law behind UFL's Conditional(c, t, t) -> t simplification)",
                      "characteristic zero for literal divisions"])
